@@ -1,0 +1,70 @@
+//go:build verif
+// +build verif
+
+// Scripted driver for the verification harness (/verif). Compiled only with -tags verif.
+// When VERIF_DRIVER is set, init() serves connections on a socket and output directory given
+// by the harness, using the unmodified handleConn / writer of this package (the real main
+// hard-codes /var/spool/thermal-raw and needs the system configuration).
+
+package main
+
+import (
+	"encoding/json"
+	"fmt"
+	"io/ioutil"
+	"log"
+	"net"
+	"os"
+	"runtime"
+	"strconv"
+	"strings"
+	"time"
+)
+
+func init() {
+	if os.Getenv("VERIF_DRIVER") == "" {
+		return
+	}
+	if os.Getenv("VERIF_LOG") == "" {
+		log.SetOutput(ioutil.Discard)
+	}
+	os.Exit(verifServe())
+}
+
+func verifOut(v interface{}) {
+	b, _ := json.Marshal(v)
+	os.Stdout.Write(append(b, '\n'))
+}
+
+// argv (VERIF_ARGS): <output dir> <socket> <number of connections>
+func verifServe() int {
+	args := strings.Fields(os.Getenv("VERIF_ARGS"))
+	if len(args) < 3 {
+		return 2
+	}
+	conns, _ := strconv.Atoi(args[2])
+	conf := &Config{DeviceID: 42, DeviceName: "verif-device", FrameInput: args[1], OutputDir: args[0]}
+	base := runtime.NumGoroutine()
+	for i := 0; i < conns; i++ {
+		os.Remove(conf.FrameInput)
+		listener, err := net.Listen("unix", conf.FrameInput)
+		if err != nil {
+			verifOut(map[string]interface{}{"ev": "listen-error", "err": err.Error()})
+			return 1
+		}
+		verifOut(map[string]interface{}{"ev": "listening"})
+		conn, err := listener.Accept()
+		if err != nil {
+			continue
+		}
+		listener.Close()
+		err = handleConn(conn, conf, false)
+		// the writer goroutine drains its queue and closes the file on its own; wait for it
+		deadline := time.Now().Add(60 * time.Second)
+		for runtime.NumGoroutine() > base && time.Now().Before(deadline) {
+			time.Sleep(time.Millisecond)
+		}
+		verifOut(map[string]interface{}{"ev": "conn-end", "err": fmt.Sprint(err), "writer_done": runtime.NumGoroutine() <= base})
+	}
+	return 0
+}
